@@ -339,7 +339,7 @@ func (tr *Addition) Add(write func(w *Writer) error) error {
 		return ErrLockFailure
 	}
 
-	if err := tr.stack.checkAddition(tab.Name()); err != nil {
+	if err := tr.checkAddition(tab.Name()); err != nil {
 		return err
 	}
 
@@ -396,7 +396,10 @@ func (tr *Addition) Commit() error {
 	return tr.stack.reload(true)
 }
 
-func (s *Stack) checkAddition(tabname string) error {
+// checkAddition validates the refs of a new table against the stack
+// and the tables added earlier in the same transaction.
+func (tr *Addition) checkAddition(tabname string) error {
+	s := tr.stack
 	if s.cfg.SkipNameCheck {
 		return nil
 	}
@@ -427,7 +430,33 @@ func (s *Stack) checkAddition(tabname string) error {
 		recs = append(recs, rec)
 	}
 
-	return validateRefRecordAddition(s.Merged(), recs)
+	if len(tr.newTables) == 0 {
+		return validateRefRecordAddition(s.Merged(), recs)
+	}
+
+	var tabs []Table
+	for _, t := range s.stack {
+		tabs = append(tabs, t)
+	}
+	for _, nm := range tr.newTables {
+		bs, err := NewFileBlockSource(filepath.Join(s.reftableDir, nm))
+		if err != nil {
+			return err
+		}
+		t, err := NewReader(bs, nm)
+		if err != nil {
+			bs.Close()
+			return err
+		}
+		defer t.Close()
+		tabs = append(tabs, t)
+	}
+	merged, err := NewMerged(tabs, s.cfg.HashID)
+	if err != nil {
+		return err
+	}
+	merged.suppressDeletions = true
+	return validateRefRecordAddition(merged, recs)
 }
 
 // non-deterministic random generator.
